@@ -24,6 +24,7 @@ CACHE = os.path.join(VERIF, ".cache")
 CHILD_MODULES = [
     ("lib.rs", '#[path = "%(R)s/exec_root.rs"] pub mod verif_exec;\n#[path = "%(R)s/exec_e2e.rs"] pub mod verif_exec_e2e;\n'),
     ("bitfield/mod.rs", '#[path = "%(R)s/exec_bitfield.rs"] pub(crate) mod verif_exec;\n'),
+    ("oplog/mod.rs", '#[path = "%(R)s/exec_oplog.rs"] pub(crate) mod verif_exec;\n'),
 ]
 
 _BUILD = {}
@@ -39,7 +40,10 @@ def build(verbose=False):
     wd = tempfile.mkdtemp(prefix="hcverif-native.", dir=base)
     try:
         shutil.copytree(os.path.join(REPO, "src"), os.path.join(wd, "src"))
-        shutil.copy(os.path.join(REPO, "Cargo.lock"), wd)
+        lock = os.path.join(REPO, "Cargo.lock")
+        if not os.path.exists(lock):
+            lock = "/repo/Cargo.lock"     # Cargo.lock is not tracked by git: worktrees do not have it
+        shutil.copy(lock, wd)
         with open(os.path.join(REPO, "Cargo.toml")) as f:
             toml = f.read()
         # drop benches / dev-deps sections that reference files we do not copy
